@@ -295,6 +295,10 @@ class load(DataStreamProcessor):
             if self.limit_rows is not None:
                 it = self.limiter(it)
             yield it
+        # a (descriptor, iterators) source is driven to its end: the resources after the last selected one are
+        # consumed, and what the source does when it is exhausted (finalisers, errors) happens within this run
+        for _ in self.iterators:
+            pass
 
     @staticmethod
     def rename_duplicate_headers(duplicate_headers, case_sensitive=True, deduplicate_format=' (%s)'):
